@@ -82,6 +82,60 @@ def install_time_stubs(eng):
     eng.model_prefixes.append(('_ZN4date6formatIc', date_format))
 
 
+FT_MARK = b'@vt'
+FT_CODES = {}
+def install_time_contract(eng):
+    """Contract model of util::to_ft / util::parse_ft (date.h through iostreams: text formatting cannot be executed by lsx): the text form is an
+    *injective* code of the whole-second part of the time point - 16 characters 'A'..'P' holding the nibbles of the seconds count followed by
+    a marker (19 characters like the real form, no NUL byte) - and parse_ft inverts it: parse_ft(to_ft(t)) == floor_seconds(t), which is what
+    '%F %T' does for every non-negative int64 nanosecond count (1970..2262).  A text that did not come from to_ft (a schema default, strftime in a trigger) parses to an arbitrary
+    time as before."""
+    install_time_stubs(eng)
+    NS = 1000000000
+    def to_ft(st, a):
+        ret, tp = a[0], a[-1]         # to_ft(sret, tp&) and, where clang inlined it, date::format(sret, fmt, tp&)
+        ns = eng.load(st, tp, 8)
+        if ns.__class__ is int:
+            ns = E.to_signed(ns, 64)
+            if ns < 0: raise E.Inconclusive('time', 'time point before 1970 formatted as text')
+            sec = ns // NS
+            bs = [0x41 + ((sec >> (4 * i)) & 15) for i in range(16)]
+        else:
+            if not eng.must_be(st, ns >= 0): raise E.Inconclusive('time', 'time point possibly before 1970 formatted as text')       # (int64 nanoseconds end in 2262)
+            sec = None
+            # ns == X * 10^9 with X small (the usual seconds -> nanoseconds conversion): the quotient is X, no division for the solver
+            if z3.is_app(ns) and ns.decl().kind() == z3.Z3_OP_BMUL and ns.num_args() == 2:
+                c, x = ns.arg(0), ns.arg(1)
+                if not z3.is_bv_value(c): c, x = x, c
+                if z3.is_bv_value(c) and c.as_long() == NS and eng.must_be(st, z3.ULE(x, 1 << 33)): sec = x
+            if sec is None: sec = E.simp(z3.UDiv(ns, z3.BitVecVal(NS, 64)))
+            bs = [E.simp(z3.ZeroExt(4, z3.Extract(4 * i + 3, 4 * i, sec)) + z3.BitVecVal(0x41, 8)) for i in range(16)]
+        FT_CODES[tuple(b if b.__class__ is int else ('t', b.get_id()) for b in bs)] = sec
+        buf = st.alloc(32, 'heap', 'ft-string'); o = st.mem[buf.obj]
+        for i, b in enumerate(bs): o.cells[i] = (1, b)
+        for i, ch in enumerate(FT_MARK + b'\0'): o.cells[16 + i] = (1, ch)
+        eng.store(st, ret, 8, buf); eng.store(st, P(ret.obj, ret.off + 8), 8, 19); eng.store(st, P(ret.obj, ret.off + 16), 8, 31)
+    eng.models['_ZN9djinterop4util5to_ftB5cxx11ERKNSt6chrono10time_pointINS1_3_V212system_clockENS1_8durationIlSt5ratioILl1ELl1000000000EEEEEE'] = to_ft
+    eng.model_prefixes.insert(0, ('_ZN4date6formatIc', to_ft))
+    old_parse = eng.models['_ZN9djinterop4util8parse_ftERKNSt7__cxx1112basic_stringIcSt11char_traitsIcESaIcEEE']
+    def parse_ft(st, a):
+        s_ = a[0]
+        n = eng.load(st, P(s_.obj, s_.off + 8), 8)
+        if n.__class__ is int and n == 19:
+            data = eng.load(st, s_, 8)
+            bs = eng.read_bytes(st, data, 19)
+            if all(b.__class__ is int for b in bs[16:]) and bytes(bs[16:]) == FT_MARK:
+                if all(b.__class__ is int for b in bs[:16]):
+                    sec = 0
+                    for i, b in enumerate(bs[:16]): sec |= ((b - 0x41) & 15) << (4 * i)
+                    return (sec * NS) & ((1 << 64) - 1)
+                sec = FT_CODES.get(tuple(b if b.__class__ is int else ('t', b.get_id()) for b in bs[:16]))       # the term to_ft coded (no bit puzzle for the solver)
+                if sec is None: sec = E.simp(z3.Concat(*[z3.Extract(3, 0, E.bv(b, 8) - z3.BitVecVal(0x41, 8)) for b in reversed(bs[:16])]))
+                return E.simp(sec * z3.BitVecVal(NS, 64))
+        return old_parse(st, a)
+    eng.models['_ZN9djinterop4util8parse_ftERKNSt7__cxx1112basic_stringIcSt11char_traitsIcESaIcEEE'] = parse_ft
+
+
 def install_abstract_v2(eng, fail='none', rows_mode='one', null='never', row_exists=True, sane_ints=True, concrete_blobs=True):
     CONCRETE_BLOBS[0] = concrete_blobs
     def blob(st, s_, col):
